@@ -341,6 +341,10 @@ class Report:
 
     # -- finish
     def finish(self, level="proof", trusted_base=None, rule="", extra=None) -> int:
+        if getattr(self, "_defer", False):
+            # thorough tier: several rounds with different seeds accumulate into one report (harness.main)
+            self._finish_args = dict(level=level, trusted_base=trusted_base, rule=rule, extra=extra)
+            return 0
         EVID.mkdir(exist_ok=True)
         REPLAYS.mkdir(exist_ok=True)
         rc = 0
